@@ -121,16 +121,7 @@ impl<H: HttpClient + Clone> StreamingArchiveReader<H> {
         }
         let range = Self::window(offset, size)?;
         let content = self.http_client.get_range(archive_url, Some(range)).await?;
-
-        // If key store is provided and content looks like BLTE, try decompression
-        if key_store.is_some() && content.len() >= 8 && &content[0..4] == b"BLTE" {
-            // Create temporary URL for BLTE processor
-            let temp_content = content.to_vec();
-            let decompressed = self.decompress_blte_data(&temp_content, key_store)?;
-            Ok(decompressed)
-        } else {
-            Ok(content.to_vec())
-        }
+        self.decode_if_blte(&content, key_store)
     }
 
     /// The inclusive byte range of `size` (> 0) bytes at `offset`
@@ -141,6 +132,79 @@ impl<H: HttpClient + Clone> StreamingArchiveReader<H> {
                 reason: format!("offset {offset} + size {size} exceeds the u64 range"),
             })?;
         Ok(HttpRange::new(offset, end))
+    }
+
+    /// Decompress a body that looks like BLTE when a key store is given
+    fn decode_if_blte(
+        &self,
+        content: &[u8],
+        key_store: Option<&TactKeyStore>,
+    ) -> Result<Vec<u8>, StreamingError> {
+        if key_store.is_some() && content.len() >= 8 && &content[0..4] == b"BLTE" {
+            self.decompress_blte_data(content, key_store)
+        } else {
+            Ok(content.to_vec())
+        }
+    }
+
+    /// Check a downloaded blob against the index entry that named it.
+    ///
+    /// The body must have the entry's size. With `verify_checksums` it must also
+    /// hash to the encoding key: the key is the MD5 of the BLTE header when the
+    /// blob has a chunk table, of the whole blob otherwise.
+    fn verify_blob(
+        &self,
+        encoding_key: &[u8],
+        entry_size: u32,
+        body: &[u8],
+    ) -> Result<(), StreamingError> {
+        if body.len() as u64 != u64::from(entry_size) {
+            return Err(StreamingError::ArchiveFormat {
+                source: ArchiveError::IncompleteRangeResponse {
+                    requested: u64::from(entry_size),
+                    received: body.len() as u64,
+                },
+            });
+        }
+        if !self.config.verify_checksums {
+            return Ok(());
+        }
+        let hashed = if body.len() >= 8 && &body[0..4] == b"BLTE" {
+            let header_size = u32::from_be_bytes([body[4], body[5], body[6], body[7]]) as usize;
+            if header_size > 0 && header_size <= body.len() {
+                &body[..header_size]
+            } else {
+                body
+            }
+        } else {
+            body
+        };
+        let digest = md5::compute(hashed).0;
+        let n = encoding_key.len();
+        if n == 0 || n > digest.len() || digest[..n] != *encoding_key {
+            return Err(StreamingError::ContentVerificationFailed {
+                expected: hex::encode(encoding_key),
+                actual: hex::encode(digest),
+            });
+        }
+        Ok(())
+    }
+
+    /// `expected_size` of a request names the stored or the decoded size
+    fn check_expected_size(
+        expected_size: Option<u32>,
+        entry_size: u32,
+        decoded_len: usize,
+    ) -> Result<(), StreamingError> {
+        match expected_size {
+            Some(n) if n != entry_size && n as usize != decoded_len => {
+                Err(StreamingError::ContentVerificationFailed {
+                    expected: format!("{n} bytes"),
+                    actual: format!("{entry_size} bytes stored, {decoded_len} bytes decoded"),
+                })
+            }
+            _ => Ok(()),
+        }
     }
 
     /// Extract multiple content pieces using optimized range requests
@@ -163,12 +227,14 @@ impl<H: HttpClient + Clone> StreamingArchiveReader<H> {
         // Look up all entries in the index
         let mut range_requests = Vec::new();
         let mut request_map = HashMap::new();
+
         let mut results = HashMap::new();
 
         for request in requests {
             if let Some(entry) = index.find_entry(&request.encoding_key) {
                 if entry.size == 0 {
                     // Nothing to fetch for an empty blob
+                    Self::check_expected_size(request.expected_size, 0, 0)?;
                     results.insert(
                         request.encoding_key.clone(),
                         ArchiveExtractionResult {
@@ -195,6 +261,7 @@ impl<H: HttpClient + Clone> StreamingArchiveReader<H> {
         for range in range_requests {
             if let Some((request, entry)) = request_map.get(&range) {
                 let content = self.http_client.get_range(archive_url, Some(range)).await?;
+                self.verify_blob(&request.encoding_key, entry.size, &content)?;
 
                 // Process BLTE content if needed
                 let final_content = if request.is_blte {
@@ -202,6 +269,7 @@ impl<H: HttpClient + Clone> StreamingArchiveReader<H> {
                 } else {
                     content.to_vec()
                 };
+                Self::check_expected_size(request.expected_size, entry.size, final_content.len())?;
 
                 let result = ArchiveExtractionResult {
                     content: final_content.clone(),
@@ -284,13 +352,24 @@ impl<H: HttpClient + Clone> StreamingArchiveReader<H> {
                     )),
                 })?;
 
-        let content = self
-            .extract_range(archive_url, entry.offset, entry.size, key_store)
-            .await?;
+        if entry.size == 0 {
+            return Ok(ArchiveExtractionResult {
+                content: Vec::new(),
+                size: 0,
+                was_compressed: false,
+                archive_offset: entry.offset,
+            });
+        }
+
+        let range = Self::window(entry.offset, entry.size)?;
+        let body = self.http_client.get_range(archive_url, Some(range)).await?;
+        self.verify_blob(encoding_key, entry.size, &body)?;
+        let was_compressed = key_store.is_some() && body.len() >= 8 && &body[0..4] == b"BLTE";
+        let content = self.decode_if_blte(&body, key_store)?;
 
         Ok(ArchiveExtractionResult {
             size: content.len(),
-            was_compressed: content.len() != entry.size as usize,
+            was_compressed,
             archive_offset: entry.offset,
             content,
         })
